@@ -11,6 +11,7 @@ package c14
 import (
 	"fmt"
 	"runtime"
+	"strings"
 	"sync"
 	"testing"
 	"time"
@@ -207,6 +208,11 @@ func run(e *core.Env) {
 				if len(h) > 15 && h[:15] == "deliver-at-once" {
 					// two hello frames were handled by two workers of one router at the same time
 					sub = "hello-frames-handled-at-once"
+				}
+			}
+			for _, h := range history {
+				if strings.HasPrefix(h, "send-while-request-arrives") {
+					sub = "hello-sent-while-a-request-is-handled"
 				}
 			}
 			if overtaken {
@@ -414,6 +420,21 @@ func run(e *core.Env) {
 		if len(pairAt) > 0 {
 			opts = append(opts, "deliver2", "deliver2", "deliver2")
 		}
+		// a router starts its own setup (the tun worker calls Send) in the instant in which a
+		// request of the other router reaches it (a frame worker handles it): two goroutines
+		// of one router, interleaved at the lock boundaries
+		var reqAt []*simnet.Packet
+		for _, p := range hello {
+			if _, fu := isHello(p, parser); fu {
+				continue
+			}
+			if p.To.Local == A && retriesA < 5 && notUp(A, B) || p.To.Local == B && retriesB < 5 && notUp(B, A) {
+				reqAt = append(reqAt, p)
+			}
+		}
+		if len(reqAt) > 0 {
+			opts = append(opts, "send+deliver", "send+deliver", "send+deliver")
+		}
 		switch op := opts[tp.Intn(len(opts))]; op {
 		case "A":
 			sendHello(A, B, "A")
@@ -507,6 +528,42 @@ func run(e *core.Env) {
 			ms.Net.DeliverRaw(pr[1])
 			simnet.Wait()
 			e.Probe("two_hello_frames_handled_at_once")
+			e.Nontrivial()
+		case "send+deliver":
+			p := reqAt[tp.Intn(len(reqAt))]
+			x, y, name := A, B, "A"
+			if p.To.Local == B {
+				x, y, name = B, A, "B"
+			}
+			noteDelivery(p)
+			history = append(history, fmt.Sprintf("send-while-request-arrives(%s)", name))
+			ms.Net.Remove(p)
+			p.NoDelay = true
+			done := make(chan struct{})
+			send := func() {
+				_, err := x.Router.HelloPing.Send(y.IP)
+				e.Ev("hello", b2u(err != nil))
+				close(done)
+			}
+			if tp.Chance(1, 2) {
+				go send()
+				ms.Net.DeliverRaw(p)
+			} else {
+				go func() { runtime.Gosched(); send() }()
+				ms.Net.DeliverRaw(p)
+			}
+			simnet.Wait()
+			<-done
+			if name == "A" {
+				retriesA++
+			} else {
+				retriesB++
+			}
+			if h := pump(); pendingSetups(h) >= 2 {
+				history = append(history, "both-initiated")
+				e.Probe("hello_both_initiated")
+			}
+			e.Probe("hello_sent_while_a_request_is_handled")
 			e.Nontrivial()
 		case "drop":
 			p := hello[tp.Intn(len(hello))]
